@@ -461,7 +461,7 @@ def ob_double_spend_bootstrap(chk, ir):
         H.stub('crypto/sha512.Sum512', lambda ex_, st, a, ins: ex_.zero(ins['type']))
         def upgrade(ex_, st, a, ins):
             def ok(s2):
-                s2.ev('session-raised', level=a[3]); return (SV('cookie'), nilerr())
+                s2.ev('session-raised', level=a[-1]); return (SV('cookie'), nilerr())
             return fork_results(ex_, st, ins, [(None, lambda s2: (SV(''), mk_error(s2, SV('cookie'), 'cookie'))), (None, ok)])
         H.stub(UPGRADE, upgrade)
         def make_b(ex_, s2):
